@@ -969,6 +969,10 @@ def evaluate__analyze_string(self: XPathFunction, context: ta.ContextType = None
     if context is None:
         raise self.missing_context()
 
+    def esc(text: str) -> str:
+        # the result is built as XML text: markup characters and CR must be escaped
+        return text.replace('&', '&amp;').replace('<', '&lt;').replace('>', '&gt;').replace('\r', '&#13;')
+
     level = 0
     escaped = False
     char_class = False
@@ -995,18 +999,18 @@ def evaluate__analyze_string(self: XPathFunction, context: ta.ContextType = None
     while k < len(input_string):
         match = compiled_pattern.search(input_string, k)
         if match is None:
-            lines.append('<non-match>{}</non-match>'.format(input_string[k:]))
+            lines.append('<non-match>{}</non-match>'.format(esc(input_string[k:])))
             break
         elif not match.groups():
             start, stop = match.span()
             if start > k:
-                lines.append('<non-match>{}</non-match>'.format(input_string[k:start]))
-            lines.append('<match>{}</match>'.format(input_string[start:stop]))
+                lines.append('<non-match>{}</non-match>'.format(esc(input_string[k:start])))
+            lines.append('<match>{}</match>'.format(esc(input_string[start:stop])))
             k = stop
         else:
             start, stop = match.span()
             if start > k:
-                lines.append('<non-match>{}</non-match>'.format(input_string[k:start]))
+                lines.append('<non-match>{}</non-match>'.format(esc(input_string[k:start])))
                 k = start
 
             match_items = []
@@ -1024,7 +1028,7 @@ def evaluate__analyze_string(self: XPathFunction, context: ta.ContextType = None
                             match_items.append('</group>')
                         unclosed_groups = 0
 
-                    match_items.append(input_string[k:_start])
+                    match_items.append(esc(input_string[k:_start]))
 
                 if _start == _stop:
                     if group_levels[idx] <= group_levels[idx - 1]:
@@ -1035,24 +1039,24 @@ def evaluate__analyze_string(self: XPathFunction, context: ta.ContextType = None
                     k = _stop
                 elif idx == compiled_pattern.groups:
                     k = _stop
-                    match_items.append(group_tmpl.format(idx, input_string[_start:k]))
+                    match_items.append(group_tmpl.format(idx, esc(input_string[_start:k])))
                     match_items.append('</group>')
                 else:
                     next_start = match.span(idx + 1)[0]
                     if next_start < 0 or _stop < next_start or _stop == next_start \
                             and group_levels[idx + 1] <= group_levels[idx]:
                         k = _stop
-                        match_items.append(group_tmpl.format(idx, input_string[_start:k]))
+                        match_items.append(group_tmpl.format(idx, esc(input_string[_start:k])))
                         match_items.append('</group>')
                     else:
                         k = next_start
-                        match_items.append(group_tmpl.format(idx, input_string[_start:k]))
+                        match_items.append(group_tmpl.format(idx, esc(input_string[_start:k])))
                         unclosed_groups += 1
 
             for _ in range(unclosed_groups):
                 match_items.append('</group>')
 
-            match_items.append(input_string[k:stop])
+            match_items.append(esc(input_string[k:stop]))
             k = stop
             lines.append('<match>{}</match>'.format(''.join(match_items)))
 
